@@ -37,30 +37,24 @@ HAND = {
     'C20': 'trailing 0xAA not kept; checksum test dropped; noise before a marker not trimmed',
 }
 STEER = {
-    "codec": "Pick your own angle, but make it one that none of the attempts above used. Some unexplored corners: "
-             "nmea2000/utils.py helpers used by only a handful of definitions (decode_bit_lookup, decode_indirect_lookup, "
-             "decode_float, decode_date, decode_time, decode_string_fix, decode_string_lz, decode_binary and their encode "
-             "counterparts); the hand-written parts of decoder.py / encoder.py around the generated code (how the payload integer "
-             "is built from bytes, byte order, the length passed to variable-length fields, how 'already combined' input is "
-             "handled); nmea2000/message.py (NMEA2000Field / IsoName construction, equality, __post_init__, defaults shared "
-             "between instances); numerical corner cases (values exactly half a step, the largest 64-bit values, resolution "
-             "1e-7 / 1e-16 fields, negative zero, floats that print in exponent notation, ints passed where floats are "
-             "expected and vice versa). The change must be small and look like an honest mistake.",
-    "state": "Pick your own angle, but make it one that none of the attempts above used. Some unexplored corners: what "
-             "happens at exactly the boundary of a limit (32 frames, 223 bytes, 8 sequence counters, 10 minutes, 253 "
-             "sources, 29-bit identifiers with the top bits set), error paths (an exception raised half-way through handling "
-             "a frame: what was already modified?), objects handed out to the caller and later reused internally, the order "
-             "of dictionary iteration or of list removal while iterating, default arguments evaluated once, comparison of "
-             "objects by identity instead of value, integer keys versus string keys for the same thing, and any place where "
-             "two representations of the same fact (a flag and a collection, a counter and a length) can drift apart.",
-    "async": "Pick your own angle, but make it one that none of the attempts above used. Some unexplored corners: the tenacity "
-             "retry configuration (which exceptions are retried, what happens on an exception that is not retried, "
-             "before_sleep), cancellation arriving at each particular await (CancelledError inside connect(), inside the "
-             "receive loop's error handler, inside _update_state), the network-map seeding task (started per connect, "
-             "cancelled when?), what send() does in each client state (DISCONNECTED, reconnecting, CLOSED) and for each "
-             "client class (Actisense has no encoder; Waveshare writes a configuration packet first), transports that report "
-             "errors through connection_lost(exc) versus through the next read, half-closed links, writer.close() / "
-             "wait_closed() semantics, and differences between TCP and serial clients in any of the above.",
+    "codec": "Choose a mechanism that is NOT in the list above. To help you look elsewhere: read the code path the property "
+             "depends on from top to bottom and list every constant, comparison operator, default value, early return and "
+             "type conversion on it; pick one that no attempt above has touched. Prefer places where two pieces of code must "
+             "agree (decoder and encoder of the same field type; the dispatcher and the per-definition function; value and "
+             "raw_value; the JSON writer and reader; a lookup table and its reverse map; the five input parsers) and make ONE "
+             "of them disagree for a narrow class of inputs. Avoid caches and shared state this time.",
+    "state": "Choose a mechanism that is NOT in the list above. To help you look elsewhere: read the code path the property "
+             "depends on from top to bottom and list every constant, comparison operator, default value, early return, "
+             "dictionary key and deletion on it; pick one that no attempt above has touched. Prefer an asymmetry: something done "
+             "for single-frame messages but not for fast-packet ones (or the reverse), for PDU1 but not PDU2, for the first "
+             "definition of a PGN but not the others, for numbers but not ids, for exclude but not include lists, on the path "
+             "that returns a message but not on a path that returns None.",
+    "async": "Choose a mechanism that is NOT in the list above. To help you look elsewhere: read connect(), _receive_loop(), "
+             "_process_queue(), send(), close() and _update_state() line by line and list every await, every state test, every "
+             "exception handler and every task creation; pick one that no attempt above has touched and change what happens "
+             "there in a way that needs a particular schedule or fault to show (for example: which exception types a handler "
+             "covers, what is done before versus after an await, whether a state test uses == or !=, whether a task is awaited, "
+             "cancelled or forgotten, what the handler does when the client is already CLOSED or already reconnecting).",
 }
 GROUP = {**{f"C{i:02d}": "codec" for i in (1, 2, 5, 6, 7, 8, 9, 15, 17, 18)}, **{f"C{i:02d}": "state" for i in (3, 4, 10, 11, 16)},
          **{f"C{i:02d}": "async" for i in (12, 13, 14, 19, 20)}}
